@@ -484,7 +484,8 @@ class Interp:
             # function that did not exist when the rules were written (a
             # helper extracted by a refactoring) is transparent
             return user_inline(qn, depth) or (
-                known is not None and qn not in known and depth < 4)
+                known is not None and qn not in known and depth < 4 and
+                not prog.is_renamed_closure(qn))
         self.inline = _inline
         self.max_paths = max_paths
         self.max_depth = max_depth
